@@ -33,6 +33,17 @@ import (
 
 const c40DecoyID = 99
 
+// c40BadID is the model's bad key: a ci.PrivKey whose serialisation fails (Raw() errors). Every Put of
+// it must be refused (class "invalid" = any error but exists / not-found) and leave both keystores and the directory as they were. The
+// MemKeystore keeps Go values and never serialises: not driven with it ("skip"), like over-long names.
+const c40BadID = 7
+
+var c40ErrBadKey = errors.New("c40: key cannot be serialised")
+
+type c40BadKey struct{ ci.PrivKey }
+
+func (c40BadKey) Raw() ([]byte, error) { return nil, c40ErrBadKey }
+
 var c40Keys = map[int]ci.PrivKey{} // 1..3 real keys, 99 the decoy
 var c40KeyBytes = map[int][]byte{}
 
@@ -53,6 +64,11 @@ func c40InitKeysOnce() {
 		}
 		c40Keys[id], c40KeyBytes[id] = k, b
 	}
+	k, _, err := ci.GenerateEd25519Key(r)
+	if err != nil {
+		panic(err)
+	}
+	c40Keys[c40BadID] = c40BadKey{k}
 }
 
 func c40KeyID(k ci.PrivKey) int {
@@ -309,6 +325,10 @@ func (s *c40Sys) call0(op, mn string, k int) M {
 	}
 	switch op {
 	case "Put":
+		if k == c40BadID {
+			skipMem = true
+			ev["mem"] = "skip"
+		}
 		ev["fs"] = c40Class(s.fsk.Put(rn, c40Keys[k]))
 		if !skipMem {
 			ev["mem"] = c40Class(s.mem.Put(rn, c40Keys[k]))
@@ -421,6 +441,7 @@ type c40Step struct {
 	N      string         `json:"n"`
 	K      int            `json:"k"`
 	Fs     string         `json:"fs"`
+	FsOk   []string       `json:"fsok"`
 	Mem    string         `json:"mem"`
 	MemDev string         `json:"memdev"`
 	M      map[string]int `json:"m"`
@@ -443,7 +464,11 @@ func c40ReplayOne(b *c40Beh, names *c40Names) (bool, int, string, string) {
 	for i, st := range b.Steps {
 		ev := s.call(st.Op, st.N, st.K)
 		desc := fmt.Sprintf("%s(%q)", st.Op, names.real[st.N])
-		if ev["fs"] != st.Fs {
+		fsOK := ev["fs"] == st.Fs
+		for _, c := range st.FsOk {
+			fsOK = fsOK || ev["fs"] == c
+		}
+		if !fsOK {
 			return false, i + 1, fmt.Sprintf("%s: FSKeystore answered %v, spec %s", desc, ev["fs"], st.Fs), ""
 		}
 		if ev["mem"] != st.Mem {
@@ -525,10 +550,18 @@ func c40Replay(t *testing.T) {
 	}
 	close(jobs)
 	wg.Wait()
+	// the runner writes one replay file per disagreement: report the first 25 genuine ones, count the rest
+	nbad, suppressed := 0, 0
 	for _, r := range results {
+		if r["ok"] == false && r["dev"] == nil {
+			if nbad++; nbad > 25 {
+				suppressed++
+				r = M{"i": r["i"], "ok": true, "suppressed": true}
+			}
+		}
 		vEmit(r)
 	}
-	vEmit(M{"summary": true, "n": len(results)})
+	vEmit(M{"summary": true, "n": len(results), "suppressed": suppressed})
 }
 
 // ---- record ------------------------------------------------------------------------------------------
@@ -563,7 +596,11 @@ func c40Record(t *testing.T) {
 			var ev M
 			switch x := rng.Intn(20); {
 			case x < 7:
-				ev = s.call("Put", pick(true), 1+rng.Intn(3))
+				k := 1 + rng.Intn(3)
+				if rng.Intn(5) == 0 {
+					k = c40BadID
+				}
+				ev = s.call("Put", pick(true), k)
 			case x < 10:
 				ev = s.call("Get", pick(false), 0)
 			case x < 12:
